@@ -146,7 +146,11 @@ def _group_task(task):
     if inst.small:
         _group_codecs(inst, list(range(inst.q)), acc, True)
     else:
-        _group_codecs(inst, C.edge_scalars(inst.q, seed, 2), acc, False)
+        sc = C.edge_scalars(inst.q, seed, 2)
+        for x in C.pattern_scalars(inst.q, 1 if inst.ref.esize <= 128 else 0):
+            if x not in sc:
+                sc.append(x)
+        _group_codecs(inst, sc, acc, False)
     return acc
 
 
